@@ -134,7 +134,8 @@ def r1_sqlite(ctx):
     ctx.rule('C13.R1', 'P9 constant tables: the SQL constant of every SQLite load/update/update_ttl/delete/change_id filters on '
              '`id = ?` AND the single liveness predicate `deadline > unixepoch()`; create\'s replace-on-conflict predicate is '
              'the exact complement; delete_expired\'s predicate implies not-live; P1: in every mutator the Ok arm of the '
-             'statement execution reaches as_unknown_id_error, which maps rows_affected()==0 to UnknownIdError.')
+             'statement execution reaches as_unknown_id_error, which maps rows_affected()==0 to UnknownIdError; create inspects rows_affected too '
+             '(0 rows = a live record has the id = DuplicateId, not success).')
     per, n_sql = sql_rules(ctx, SQ, 'pavex_session_sqlx::sqlite::SqliteSessionStore', 'unixepoch()', 'sqlite')
     ctx.count('sqlite_sql_constants', n_sql)
     ctx.floor('C13.R1', 'SQL constants in the SQLite store', n_sql, 8)
@@ -164,6 +165,25 @@ def r1_sqlite(ctx):
             ctx.ob('C13.R1', 'sqlite|%s|zero-rows-is-unknown-id' % m, bool(ok_targets) and bool(unk) and not bad, b.loc(execs[0]),
                    'every path from the Ok arm of execute() to return passes through as_unknown_id_error: %s' % (not bad))
         ctx.need('C13.R1', 'execute() call in sqlite %s' % m, found)
+    # create: the conditional upsert changes no row when a LIVE record already has this id; reporting that as success means the caller's
+    # record was not stored (and the in-memory sibling answers DuplicateId)
+    if 'create' in per:
+        for b in per['create'][0]:
+            execs = [bb for bb, t in b.calls() if callee(t) == 'sqlx_core::query::Query::execute']
+            if not execs:
+                continue
+            rows = [bb for bb, t in b.calls() if (callee(t) or '').endswith('QueryResult::rows_affected') or (callee(t) or '').endswith('::rows_affected')]
+            derived = forward_derived(b, {b.term(execs[0])['dest']['l']}, through_calls=True)
+            ok_targets = []
+            for sb in b.live_blocks():
+                t = b.term(sb)
+                if t and t['k'] == 'switch' and strip_generics(t.get('enum', '')) == 'core::result::Result' and t['src']['l'] in derived:
+                    ok_targets += [tg for n, tg in t['ts'] if n == 'Ok']
+            rets = set(b.return_blocks())
+            unchecked = any(body_reaches(b, tg, rets, avoid=rows) for tg in ok_targets)
+            ctx.ob('C13.R1', 'sqlite|create|zero-rows-is-duplicate-id', bool(ok_targets) and bool(rows) and not unchecked, b.loc(execs[0]),
+                   'the Ok arm of the conditional upsert %s rows_affected(): an upsert that changed no row (a live record has this id) is reported as %s'
+                   % ('inspects' if rows and not unchecked else 'does NOT inspect', 'DuplicateId' if rows and not unchecked else 'success although nothing was written'))
     h = ctx.need('C13.R1', 'as_unknown_id_error', ctx.fb.body(SQ, 'pavex_session_sqlx::sqlite::as_unknown_id_error'))
     if h is not None:
         ok = False
